@@ -116,11 +116,10 @@ def fragLoop (mtu : Nat) (h : Hdr) (pid : Nat) : Nat → Bool → Bytes → Opti
     else
       let ss := !h.nonKey && first
       let headerSize := if ss then 3 + 8 else 3
-      let maxFragmentSize : Int := (mtu : Int) - headerSize
-      let cur : Int := min maxFragmentSize rest.length
-      if cur ≤ 0 then none
+      -- currentFragmentSize = min(mtu - headerSize, remaining) with remaining > 0 here
+      if mtu ≤ headerSize then none
       else
-        let k := cur.toNat
+        let k := min (mtu - headerSize) rest.length
         let e := decide (rest.length = k)
         let out := descByte h.nonKey first e ss :: UInt8.ofNat (pid / 256 + 128) :: UInt8.ofNat (pid % 256)
                     :: ((if ss then ssBytes h else []) ++ rest.take k)
